@@ -28,8 +28,11 @@ VERIF = os.path.dirname(os.path.dirname(os.path.abspath(__file__)))
 LEAN = os.path.join(VERIF, "lean")
 HARNESS = os.path.join(VERIF, "harness")
 ALLOWED_AXIOMS = {"propext", "Classical.choice", "Quot.sound"}
-FORBIDDEN = [r"\bsorry\b", r"\badmit\b", r"^\s*axiom\s", r"\bnative_decide\b", r"\bbv_decide\b",
-             r"\bimplemented_by\b", r"\bunsafe\s", r"maxHeartbeats\s+0\b", r"\bextern\b"]
+FORBIDDEN = [r"\bsorry\b", r"\badmit\b", r"\baxiom\b", r"\bnative_decide\b", r"\bbv_decide\b",
+             r"\bimplemented_by\b", r"\bunsafe\b", r"maxHeartbeats\s+0\b", r"\bextern\b", r"decide\s*\+native",
+             r"\bofReduceBool\b", r"\btrustCompiler\b", r"\bunsafeCast\b", r"\bcsimp\b"]
+# `partial def` would let a driver run an unproved twin of a proved function: only the IO loop in Common may be partial
+PARTIAL_OK = {"RlibModel.Model.Common"}
 TRUSTED_BASE = [
     "Lean 4.33.0 kernel + elaborator",
     "axioms: propext, Classical.choice, Quot.sound only (audited with #print axioms on every run)",
@@ -72,11 +75,25 @@ def load_config(pid):
 # ----------------------------------------------------------------------------------------------
 
 def strip_lean_comments(src):
-    """Remove block comments (nested) and line comments; keeps string literals approximately."""
+    """Remove block comments (nested) and line comments.  String literals are blanked (so that a `/-` or `--`
+    inside a string can neither open a comment nor hide a forbidden token) but kept as `""`."""
     out = []
     i, depth, n = 0, 0, len(src)
     while i < n:
-        if src.startswith("/-", i):
+        if depth == 0 and src[i] == '"':
+            # string literal: skip to the closing quote, honouring escapes
+            j = i + 1
+            while j < n and src[j] != '"':
+                j += 2 if src[j] == "\\" else 1
+            out.append('""')
+            out.append("\n" * src.count("\n", i, min(j + 1, n)))
+            i = j + 1
+        elif depth == 0 and src[i] == "'" and i + 2 < n and (src[i + 2] == "'" or (src[i + 1] == "\\" and i + 3 < n and src[i + 3] == "'")):
+            # char literal such as '"' or '\''
+            k = i + 3 if src[i + 2] == "'" else i + 4
+            out.append("' '")
+            i = k
+        elif src.startswith("/-", i):
             depth += 1
             i += 2
         elif depth > 0 and src.startswith("-/", i):
@@ -120,6 +137,8 @@ def scan_forbidden(modules):
             for pat in FORBIDDEN:
                 if re.search(pat, line):
                     hits.append(f"{mod}:{ln}: {line.strip()[:120]}")
+            if re.search(r"\bpartial\s+def\b", line) and mod not in PARTIAL_OK:
+                hits.append(f"{mod}:{ln}: partial def outside Common: {line.strip()[:100]}")
     return hits
 
 
@@ -134,14 +153,43 @@ def theorems_of(props_module):
         if m:
             ns.append(m.group(1))
             continue
+        m = re.match(r"\s*section\s+([\w.]+)\s*$", line)
+        if m:
+            ns.append("§" + m.group(1))
+            continue
         m = re.match(r"\s*end\s+([\w.]+)\s*$", line)
-        if m and ns and ns[-1] == m.group(1):
+        if m and ns and ns[-1] in (m.group(1), "§" + m.group(1)):
             ns.pop()
             continue
-        m = re.match(r"\s*(?:@\[[^\]]*\]\s*)*(?:protected\s+|private\s+)?theorem\s+([^\s:({\[]+)", line)
+        m = re.match(r"\s*(?:(?:set_option|open)\b.*?\bin\s+)?(?:@\[[^\]]*\]\s*)*(?:(?:protected|private|nonrec|noncomputable)\s+)*(?:theorem|lemma)\s+([^\s:({\[]+)", line)
         if m:
-            names.append(".".join(ns + [m.group(1)]))
+            names.append(".".join([x for x in ns if not x.startswith("§")] + [m.group(1)]))
     return names
+
+
+def enclosing_theorem(path, line_no):
+    """Name of the `theorem`/`lemma`/`def`/`instance` whose text contains line `line_no` of a Lean file."""
+    try:
+        lines = open(path).read().split("\n")
+    except OSError:
+        return None
+    for k in range(min(line_no, len(lines)) - 1, -1, -1):
+        m = re.match(r"\s*(?:@\[[^\]]*\]\s*)*(?:(?:protected|private|nonrec|noncomputable)\s+)*(theorem|lemma|def|instance|example)\s*([^\s:({\[]*)", lines[k])
+        if m:
+            return f"{m.group(1)} {m.group(2)}".strip()
+    return None
+
+
+def failing_declarations(lake_output):
+    """Map `error: path:line:col` lines of a lake build log to the declarations they are in."""
+    out = []
+    for m in re.finditer(r"error: ([\w./-]+\.lean):(\d+):(\d+)", lake_output):
+        path = m.group(1) if os.path.isabs(m.group(1)) else os.path.join(LEAN, m.group(1))
+        decl = enclosing_theorem(path, int(m.group(2)))
+        item = f"{m.group(1)}:{m.group(2)} in {decl}" if decl else f"{m.group(1)}:{m.group(2)}"
+        if item not in out:
+            out.append(item)
+    return out[:20]
 
 
 def lake_build(targets):
@@ -163,9 +211,9 @@ def audit_axioms(pid, props_module, theorems):
     out = (r.stdout or "") + (r.stderr or "")
     res = {}
     # output forms:  'X' depends on axioms: [a, b]      |   'X' does not depend on any axioms
-    for m in re.finditer(r"'([^']+)' depends on axioms: \[([^\]]*)\]", out, flags=re.S):
+    for m in re.finditer(r"^.*?'(\S+)' depends on axioms: \[([^\]]*)\]", out, flags=re.S | re.M):
         res[m.group(1)] = [a.strip() for a in m.group(2).replace("\n", " ").split(",") if a.strip()]
-    for m in re.finditer(r"'([^']+)' does not depend on any axioms", out):
+    for m in re.finditer(r"^.*?'(\S+)' does not depend on any axioms", out, flags=re.M):
         res[m.group(1)] = []
     return r.returncode == 0, res, out
 
@@ -341,19 +389,20 @@ class Pipeline:
 
 
 def classify(rec):
-    """'ok' | 'violation' (impl view != spec) | 'drift' (impl raw != model raw, views agree)
-       | 'machinery' (model view != spec, or unparsable)."""
+    """'ok' | 'violation' (impl view != spec, whatever the model says) | 'drift' (impl raw != model raw, views agree)
+       | 'machinery' (impl agrees with the spec but the model's own view does not, or a line is unparsable)."""
     i, m = rec["impl"], rec["model"]
     if m is None:
         return "machinery"
     mraw, mview, spec = m
-    if spec != "any" and mview != spec:
-        return "machinery"
     if i is None:
-        return "machinery"
+        # no answer at all from the implementation for this case (crash / hang / harness died)
+        return "violation" if spec != "any" and str(rec.get("impl_line", "")).startswith("<") else "machinery"
     iraw, iview = i
     if spec != "any" and iview != spec:
         return "violation"
+    if spec != "any" and mview != spec:
+        return "machinery"
     if iraw != mraw:
         return "drift"
     return "ok"
@@ -409,9 +458,14 @@ def load_known(pid):
     return [e for e in data.get("findings", []) if e.get("property") == pid and e.get("status") == "known"]
 
 
-def match_known(known, case_line, kind="case"):
+def match_known(known, case_line, kind="case", cfg=None):
     for e in known:
         m = e.get("match", {})
+        if m.get("kind", "case") == "predicate" and kind == "case":
+            # a class of inputs with one root cause, decided by the property's own config (checks/Cxx.py: known_match)
+            if cfg is not None and hasattr(cfg, "known_match") and cfg.known_match(m.get("name"), case_line):
+                return e
+            continue
         if m.get("kind", "case") != kind:
             continue
         rx = m.get("case_regex")
